@@ -37,6 +37,7 @@ type build struct {
 
 	ignore    []string // .helmignore rule lines
 	hasIgnore bool
+	nDevs     int // number of deviations of the case
 }
 
 const (
@@ -186,27 +187,64 @@ var ruleAlphabet = []struct{ Tok, Line string }{
 	{"blank", ""},
 }
 
-// probeFiles exist in every chart that has a .helmignore: for every rule of
-// the alphabet at least one path that it must match and near misses that it
-// must not. Every content is unique so that it can be searched for in an archive.
-var probeNames = []string{
-	"README.md", "sub/README.md", // rooted rule: only the first
-	"notes.txt", "sub/notes.txt", "templates/extra.txt", "naïve-世界.txt", "notes.txt.bak", // basename glob anywhere
-	"docs/a.md", "docs/deep/b.md", "sub/docs/c.md", "other/docs", // directory rule: directories named docs at any depth (anchored: the root one only), not files
-	"abc", "sub/abc", "aéc", "ac", "abbc", "adc/inner.md", "templates/a-c", // ? = exactly one character; matches directories too
-	"sub/x.tmp", "sub/deep/y.tmp", "x.tmp", "other/sub/z.tmp", // structural rule: anchored at the root, * does not cross /
-	".env", "conf/.env", "secret.key", "secretXkey", // escaped dot: a literal dot, at any depth for basename rules
-	"private.pem", "conf/private.pem", "conf/local.yaml", "other/conf/local.yaml", // escaped + anchored / with a directory
-	"#scratch#", "scratch#", // escaped leading '#'
+// Probe files come with a .helmignore: for every rule of the alphabet paths
+// that it must match and near misses that it must not. Every content is unique
+// so that it can be searched for in an archive.
+var probeGroups = []struct {
+	Toks  []string // the rules these paths were designed for
+	Names []string
+}{
+	{[]string{"root-readme"}, []string{"README.md", "sub/README.md"}},                                                      // rooted rule: only the first
+	{[]string{"star-txt"}, []string{"notes.txt", "sub/notes.txt", "templates/extra.txt", "naïve-世界.txt", "notes.txt.bak"}}, // basename glob anywhere
+	{[]string{"docs-dir", "root-docs-dir"}, []string{"docs/a.md", "docs/deep/b.md", "sub/docs/c.md", "other/docs"}},        // directories named docs at any depth (anchored: the root one only), not files
+	{[]string{"aQc", "root-aQc"}, []string{"abc", "sub/abc", "aéc", "ac", "abbc", "adc/inner.md", "templates/a-c"}},        // ? = exactly one character; matches directories too
+	{[]string{"sub-star-tmp", "root-sub-star-tmp"}, []string{"sub/x.tmp", "sub/deep/y.tmp", "x.tmp", "other/sub/z.tmp"}},   // structural: anchored at the root, * does not cross /
+	{[]string{"esc-dotenv"}, []string{".env", "conf/.env"}},                                                                // escaped dot, basename rule: any depth
+	{[]string{"esc-secret-key"}, []string{"secret.key", "secretXkey"}},                                                     // the escaped dot is a literal dot
+	{[]string{"root-esc-pem"}, []string{"private.pem", "conf/private.pem"}},                                                // escaped + anchored
+	{[]string{"conf-esc-yaml"}, []string{"conf/local.yaml", "other/conf/local.yaml"}},                                      // escaped, with a directory
+	{[]string{"esc-hash"}, []string{"#scratch#", "scratch#"}},                                                              // escaped leading '#'
 }
+
+// innocents are kept in the reduced probe set whatever the rules are.
+var innocents = []string{"README.md", "notes.txt", "docs/a.md", "abc"}
+
+var probeNames = func() []string {
+	var out []string
+	for _, g := range probeGroups {
+		out = append(out, g.Names...)
+	}
+	return out
+}()
 
 // ruleSetCount: non-empty subsets of size <= 2 of the alphabet.
 func ruleSetCount() int { n := len(ruleAlphabet); return n + n*(n-1)/2 }
 
-func probeFiles() []file {
+// probeFiles: the whole probe set, or (reduced) only the groups designed for
+// the given rule tokens plus the innocents.
+func probeFiles(reduced bool, toks []string) []file {
+	want := map[string]bool{}
+	for _, g := range probeGroups {
+		use := !reduced
+		for _, t := range g.Toks {
+			for _, have := range toks {
+				use = use || t == have
+			}
+		}
+		if use {
+			for _, n := range g.Names {
+				want[n] = true
+			}
+		}
+	}
+	for _, n := range innocents {
+		want[n] = true
+	}
 	var fs []file
 	for _, n := range probeNames {
-		fs = append(fs, file{n, []byte("probe:" + n + "\n")})
+		if want[n] {
+			fs = append(fs, file{n, []byte("probe:" + n + "\n")})
+		}
 	}
 	return fs
 }
@@ -386,17 +424,20 @@ func deviations() []deviation {
 			i, j := i, j
 			id := "ign:" + ruleAlphabet[i].Tok
 			rules := []string{ruleAlphabet[i].Line}
+			toks := []string{ruleAlphabet[i].Tok}
 			var simpler []string
 			if j > i {
 				simpler = []string{id, "ign:" + ruleAlphabet[j].Tok}
 				id += "," + ruleAlphabet[j].Tok
 				rules = append(rules, ruleAlphabet[j].Line)
+				toks = append(toks, ruleAlphabet[j].Tok)
 			}
 			add(id, func(b *build) {
 				b.once("ignore")
 				b.hasIgnore = true
 				b.ignore = rules
-				b.putAll("", probeFiles())
+				// with three deviations (thorough tier) only the probes of the set's own rules
+				b.putAll("", probeFiles(b.nDevs >= 3, toks))
 			}, simpler...)
 		}
 	}
@@ -418,6 +459,7 @@ func devByID(id string) *deviation {
 // when two of them set the same file or setting.
 func buildCase(ids []string) (*build, bool) {
 	b := newBuild()
+	b.nDevs = len(ids)
 	for _, id := range ids {
 		d := devByID(id)
 		if d == nil {
